@@ -219,6 +219,7 @@ def c08(tier, seed):
                  bounds="every buffer length 0..=70000 and every header value (so every byte of the length prefix matters)", functions=["adss::load_bytes", "adss::load_u32"]))
     for n in (0, 255, 256, 300):
         obs.append(K("c08::c08_store_bytes_%d" % n, tier="q" if n in (0, 256) else "t", cap=300, extra=FUNC,
+                     unwindset=[("c08::", 305)] + RULES,
                      claim="store_bytes writes a 4-byte little-endian length then the data; load_bytes inverts it",
                      bounds="all chunks of %d bytes" % n, functions=["adss::store_bytes", "adss::store_u32", "adss::load_bytes"]))
     adss_st = dec + ["f1600_ro: Keccak-f as collision-free random oracle", "OsRng -> arbitrary words", "is_valid stub (one pass of Fp::random)", "field mul/invert by the C07 field laws"]
@@ -358,20 +359,21 @@ def c16(tier, seed):
 
 def c05(tier, seed):
     obs = []
-    fields = [("threshold", 0, 4, True, "t"), ("c", 60, 62, True, "t"), ("d", 66, 68, True, "t"), ("j", 68, 132, True, "q")]
-    for name, lo, hi, rej, q in fields:
-        def tc(o, info, lo=lo, hi=hi, rej=rej):
-            v = lay(info, [("m", 2), ("r", 2), ("nbs", 64)])
+    fields = [("threshold", 0, "q"), ("c", 1, "t"), ("d", 2, "t"), ("j", 3, "q")]
+    for name, which, q in fields:
+        def tc(o, info, which=which):
+            v = lay(info, [("m", 2), ("r", 2), ("nt", 4), ("nc", 2), ("nj", 64)])
+            if not v:
+                return []
+            lo, hi, nb = {0: (0, 4, v["nt"]), 1: (60, 62, v["nc"]), 2: (66, 68, v["nc"]), 3: (68, 132, v["nj"])}[which]
             return [{"kind": "adss_scenario", "m": v["m"].hex(), "r": v["r"].hex(), "t": 1, "n_shares": 1, "fault_lo": lo, "fault_hi": hi,
-                     "fault_bytes": v["nbs"][:hi - lo].hex(), "must_reject": rej}] if v else []
-        obs.append(K("c16b::c05_fault_" + name, tier=q, cap=2400, mem=30, must_cover=["rejected"],
-                     claim="the %s field of the ciphertext-supplying share replaced by arbitrary different content: recovery returns an error%s" % (name, "" if rej else " or exactly the shared message"),
-                     bounds="honest threshold-1 sharing of 2-byte message and coins; the whole field arbitrary (subsumes every bit/byte fault); the Shamir layer returns an arbitrary key (so the claim holds for every accompanying share set); altered x / y only change that key and are covered by c05_any_interpolated_key", stubs=ADSS + ["Sharks::recover -> arbitrary Ok(24 bytes) / Err", "the encoded share is assembled from the permutation log (faithfulness: c05_fault_model_faithful)"],
-                     functions=["adss::recover", "adss::Commune::verify", "adss::Share::from_bytes"], to_case=tc))
-    obs.append(K("c16b::c05_fault_model_faithful", tier="q", cap=900, mem=20, must_cover=["reached"],
-                 claim="the share encoding assembled from the permutation log in the fault harnesses is byte-for-byte the real `share().to_bytes()`",
-                 bounds="2-byte message/coins, t = 1", stubs=ADSS, functions=["adss::Commune::share", "adss::Share::to_bytes"]))
-    obs.append(K("c16b::c05_any_interpolated_key", tier="q", cap=2400, mem=30, must_cover=["rejected", "accepted with the original message"],
+                     "fault_bytes": nb.hex(), "must_reject": True}]
+        obs.append(K("c16b::c05_fault_" + name, tier=q, cap=2400, mem=24, must_cover=["rejected"],
+                     claim="the %s field of the ciphertext-supplying share replaced by arbitrary different content: recovery always returns an error" % name,
+                     bounds="honest threshold-1 sharing of 2-byte message and coins; the whole field arbitrary (subsumes every bit/byte fault); threshold fault: the Shamir layer returns an arbitrary key; C/D/J faults: it returns the honest key (single-field fault; with a chosen key and a matching tag an attacker presents his own consistent sharing); altered x / y only change the key and are covered by c05_any_interpolated_key",
+                     stubs=ADSS + ["Sharks::recover -> arbitrary key (threshold) / the honest key K||0 from the log (C, D, J)", "faulty share built through the cfg(kani) hook adss::Share::verif_from_parts"],
+                     functions=["adss::recover", "adss::Commune::verify"], to_case=tc))
+    obs.append(K("c16b::c05_any_interpolated_key", tier="q", cap=2400, mem=24, must_cover=["rejected", "accepted with the original message"],
                  claim="whatever key the Shamir layer hands back (any mixture of foreign, altered, repeated, surplus points): the result is an error or exactly the message of the first share's sharing",
                  bounds="honest threshold-2 sharing of 2-byte message/coins; interpolated key = arbitrary 24 bytes or error", stubs=ADSS + ["Sharks::recover -> arbitrary Ok(24 bytes) / Err"],
                  functions=["adss::recover", "adss::Commune::verify"],
@@ -391,8 +393,8 @@ def c02(tier, seed):
     obs.append(M("mir::recover-structure", "counting gate: Sharks::recover refuses iff fewer than t distinct points (duplicates do not count, any order), from its MIR with symbolic points",
                  bounds="n <= 3/4 shares, thresholds 0..n+1 and 2^32-1"))
     obs.append(M("mir::recover-vectors", "native cross-check of the gate on every point pattern over {0..3}^n", bounds="concrete"))
-    obs.append(K("c16b::c02_gate_repeated_share", tier="q", cap=1800, mem=50, must_cover=["reached"],
-                 claim="adss::recover propagates the refusal before any decryption: one share repeated under threshold 2 never recovers",
+    obs.append(K("c16b::c02_gate_refusal_propagates", tier="q", cap=900, mem=20, must_cover=["reached"],
+                 claim="adss::recover propagates a refusal of the Shamir layer (fewer than threshold distinct shares) before any decryption",
                  bounds="2-byte message", stubs=ADSS, functions=["adss::recover"],
                  to_case=lambda o, info: adss_case(o, info, [("m", 2)], t=2, n_shares=1)))
     for h in ("c16_structure_m1_r1_t1", "c16_structure_m4_r4_t2"):
